@@ -933,20 +933,22 @@ func vf27Observe(t testing.TB, c *vf27Child, dir string, fpath string, getFromMs
 	return o
 }
 
-// vf27Garbage is the stale content a torn write may leave behind. The patterns are chosen so that a
-// 32-bit field read from them stays below a few hundred MB: playback allocates a buffer of the size
-// a trun entry declares, and text or 0xff garbage makes that several GB per request (observed:
-// requests of tens of seconds on this shared machine) - see findings/C28.md, "not decided here".
-func vf27Garbage(pat int, n int, stale []byte) []byte {
+// vf27Garbage is the stale content a torn write may leave behind, n bytes starting at the absolute
+// offset abs of a write that started at unitStart. The patterns keep every 4-byte field of the
+// write small: playback allocates a buffer of the size a trun entry declares, so text or 0xff
+// garbage costs several GiB per request (observed: requests of tens of seconds on this shared
+// machine; see findings/C28.md).
+func vf27Garbage(pat int, n int, abs int, unitStart int) []byte {
 	g := make([]byte, n)
-	switch pat {
-	case 0:
-		for i := range g {
+	for i := range g {
+		ph := (abs + i - unitStart) % 8
+		switch pat {
+		case 0:
 			g[i] = 0x01
-		}
-	default: // bytes of an older part of the same kind, misaligned
-		for i := range g {
-			g[i] = stale[(i+4+pat)%len(stale)]
+		case 1:
+			g[i] = []byte{0, 0, 0x01, 0x2c, 0, 0, 0x01, 0x2c}[ph]
+		default:
+			g[i] = []byte{0, 0, 0, 0, 0, 0, 0, 1}[ph]
 		}
 	}
 	return g
@@ -1095,13 +1097,13 @@ func TestVerif_C27_Crash(t *testing.T) {
 				"pat": pat, "len": len(b), "prev": vf27FlatIDs(s1), "parts": partIDs, "partEndMs": partEnds,
 				"prevStartMs": s1.StartMs, "startMs": s2.StartMs, "obs": o})
 		}
-		build := func(off int, mode string, pat int, fillTo int) []byte {
+		build := func(off int, k int, mode string, pat int, fillTo int) []byte {
 			b := append([]byte{}, img[:off]...)
 			switch mode {
 			case "zero":
 				b = append(b, make([]byte, fillTo-off)...)
 			case "garbage":
-				b = append(b, vf27Garbage(pat, fillTo-off, s1.Bytes[s1.Units[1]:])...)
+				b = append(b, vf27Garbage(pat, fillTo-off, off, s2.Units[k])...)
 			}
 			return b
 		}
@@ -1148,7 +1150,7 @@ func TestVerif_C27_Crash(t *testing.T) {
 					pats = []int{0, 1, 2}
 				}
 				for _, pat := range pats {
-					emit(cs, off, pat, build(off, mode, pat, fillTo))
+					emit(cs, off, pat, build(off, k, mode, pat, fillTo))
 				}
 			}
 		}
@@ -1174,7 +1176,7 @@ func TestVerif_C27_Crash(t *testing.T) {
 					case "zero":
 						b = append(b, make([]byte, 256)...)
 					case "garbage":
-						b = append(b, vf27Garbage(seed%3, 256, s1.Bytes[s1.Units[1]:])...)
+						b = append(b, vf27Garbage(seed%3, 256, len(base), len(base))...)
 					}
 					emit(cs, len(base), seed%3, b)
 				}
